@@ -395,6 +395,30 @@ def oracle_c16(h, r):
             if gota.get(i) != expa.get(i, 0):
                 fails.append({'what': 'reducing adapter over an array after epoch %d: element %d is %s, fold of contributions %d' % (e, i, gota.get(i), expa.get(i, 0))})
                 break
+    # reduce_by_key_map: over rank-local vectors of pairs and over the distributed map M
+    Y = {}
+    for l in r['lines']:
+        if l.startswith('Y '):
+            t = l.split()
+            Y.setdefault(t[2], {})
+            for kv in t[4:]:
+                k, v = kv.split('=')
+                if int(k) in Y[t[2]]:
+                    fails.append({'what': 'reduce_by_key_map result %s holds key %s on two ranks' % (t[2], k)})
+                Y[t[2]][int(k)] = int(v)
+    if 'RBK1' in Y:
+        keys = [0, 1, 1048576, 99, 2097153]
+        want = {}
+        for me in range(h.n):
+            for i in range(5 + me):
+                k = keys[(i * 7 + me) % 5]
+                want[k] = want.get(k, 0) + i + 10 * me + 1
+        if Y['RBK1'] != want:
+            fails.append({'what': 'reduce_by_key_map over rank-local vectors: %s, per-key fold %s' % (Y['RBK1'], want)})
+        if Y.get('RBK2') != want:
+            fails.append({'what': 'reduce_by_key_map over a distributed bag of pairs: %s, per-key fold %s' % (Y.get('RBK2'), want)})
+    elif r.get('verdict') == 'ok':
+        fails.append({'what': 'no reduce_by_key_map output'})
     return fails, []
 
 def oracle_c13(h, r):
